@@ -109,6 +109,9 @@ class IO(object):
         try:
             self.socket = context.wrap_socket(self.socket,
                                               server_hostname=hostname)
+            # Anything received in clear text must not be read as part of
+            # the encrypted session.
+            self.recv_buffer = b''
             return True
         except SSLError as exc:
             log.error(self.socket, exc, self.address)
@@ -118,6 +121,9 @@ class IO(object):
         log.encrypt(self.socket, context)
         try:
             self.socket = context.wrap_socket(self.socket, server_side=True)
+            # Anything received in clear text must not be read as part of
+            # the encrypted session.
+            self.recv_buffer = b''
             return True
         except SSLError as exc:
             log.error(self.socket, exc, self.address)
